@@ -9,6 +9,7 @@ import Proofs.Lemmas.C17Stats
 import Proofs.Lemmas.C17Sort
 import Proofs.Lemmas.C17Order
 import Proofs.Lemmas.C17F64
+import Proofs.Lemmas.C17Mean
 
 namespace C17
 open Legacy F64
@@ -153,6 +154,121 @@ example : ∀ x ∈ [one, c3, c100], PosFin x := by
   intro x hx
   simp only [List.mem_cons, List.mem_nil_iff, or_false] at hx
   rcases hx with rfl | rfl | rfl <;> exact ⟨by decide, by decide⟩
+
+/-- Min and Max bound every element in signed exact value, for any list without NaN
+(±Inf count as ±2^1024); no order hypothesis: `lt_iff_sval`. -/
+theorem bounds_sval (rv : List Bits) (hne : rv ≠ []) (hnan : ∀ x ∈ rv, isNaN x = false) :
+    (bounds rv).1 ∈ rv ∧ (bounds rv).2 ∈ rv ∧
+    ∀ x ∈ rv, sval (bounds rv).1 ≤ sval x ∧ sval x ≤ sval (bounds rv).2 := by
+  obtain ⟨hm1, hm2⟩ := bounds_mem rv hne
+  refine ⟨hm1, hm2, ?_⟩
+  have hemb : ∀ a ∈ rv, ∀ b ∈ rv, (lt a b = true ↔ sval a < sval b) :=
+    fun a ha b hb => lt_iff_sval a b (hnan a ha) (hnan b hb)
+  cases rv with
+  | nil => exact absurd rfl hne
+  | cons x0 xs =>
+    rw [bounds_cons]
+    exact (foldl_bounds_extremal_on sval (x0 :: xs) hemb (x0 :: xs) (x0, x0)
+      (List.mem_cons_self ..) (List.mem_cons_self ..) (fun _ h => h)).2
+
+/-- **min_le_mean_le_max_exact** — the `_partial` theorem without its order-embedding hypothesis:
+for every non-empty list without NaN (in particular every retained list, `retained_not_nan`),
+either sign, zeros and ±Inf (valued ±2^1024) included, the exact mean of the signed values lies
+between the values of Min and Max. -/
+theorem min_le_mean_le_max_exact (rv : List Bits) (hne : rv ≠ []) (hnan : ∀ x ∈ rv, isNaN x = false) :
+    (bounds rv).1 ∈ rv ∧ (bounds rv).2 ∈ rv ∧
+    sval (bounds rv).1 ≤ (rv.map sval).sum / (rv.length : ℚ) ∧
+    (rv.map sval).sum / (rv.length : ℚ) ≤ sval (bounds rv).2 := by
+  obtain ⟨hm1, hm2, hall⟩ := bounds_sval rv hne hnan
+  refine ⟨hm1, hm2, ?_⟩
+  have hlen : (0 : ℚ) < (rv.length : ℚ) := by
+    have : 0 < rv.length := List.length_pos_of_ne_nil hne
+    exact_mod_cast this
+  have hs := sum_bounds (rv.map sval) (sval (bounds rv).1) (sval (bounds rv).2) (by
+    intro y hy
+    obtain ⟨x, hx, rfl⟩ := List.mem_map.mp hy
+    exact hall x hx)
+  rw [List.length_map] at hs
+  exact ⟨(le_div_iff₀ hlen).mpr hs.1, (div_le_iff₀ hlen).mpr hs.2⟩
+
+/-- **mean_between_min_max** — the FLOAT mean.  For a non-empty list of finite floats of either
+sign (zeros, subnormals included) whose span `Max − Min` does not overflow in float64 and with
+fewer than 2^53 elements, `stats.Mean`'s loop `m += (x − m)/float64(i+1)` returns a finite float
+with `Min ≤ Mean ≤ Max` in the float comparison `F64.le` (and in exact value).
+Every step stays between the running mean and the new value (`step_between`): each operation is
+the correctly rounded exact result, rounding is monotone and the identity on floats, and
+`R(R(δ)/k) ≤ δ` for k ≥ 2 (`shrink`: a power of two lies between). -/
+theorem mean_between_min_max (rv : List Bits) (hne : rv ≠ []) (hfin : ∀ x ∈ rv, isFinite x = true)
+    (hspan : isFinite (sub (bounds rv).2 (bounds rv).1) = true) (hlen : rv.length < 2 ^ 53) :
+    isFinite (mean rv) = true ∧
+    le (bounds rv).1 (mean rv) = true ∧ le (mean rv) (bounds rv).2 = true ∧
+    sval (bounds rv).1 ≤ sval (mean rv) ∧ sval (mean rv) ≤ sval (bounds rv).2 := by
+  have hnan : ∀ x ∈ rv, isNaN x = false := fun x hx => isNaN_of_finite (hfin x hx)
+  obtain ⟨hm1, hm2, hall⟩ := bounds_sval rv hne hnan
+  have hlo := hfin _ hm1
+  have hhi := hfin _ hm2
+  have main : isFinite (mean rv) = true ∧ sval (bounds rv).1 ≤ sval (mean rv) ∧
+      sval (mean rv) ≤ sval (bounds rv).2 := by
+    cases hrv : rv with
+    | nil => exact absurd hrv hne
+    | cons x0 xs =>
+      rw [hrv] at hall hfin hlen
+      rw [← hrv] at hall
+      have hx0 := hfin x0 (List.mem_cons_self ..)
+      have hK := ofInt_exact (((0 + 1 : Nat) : Int)) (by decide)
+      obtain ⟨f0, s0⟩ := step_first x0 (ofInt ((0 + 1 : Nat) : Int)) hx0 hK.2 (by rw [hK.1]; norm_num)
+      have hmean : mean (x0 :: xs) = meanLoop xs 1 (add posZero (div (sub x0 posZero) (ofInt ((0 + 1 : Nat) : Int)))) := by
+        simp [mean, meanLoop]
+      rw [hmean, ← hrv]
+      have b0 := hall x0 (by rw [hrv]; exact List.mem_cons_self ..)
+      apply meanLoop_between (bounds rv).1 (bounds rv).2 hlo hhi hspan xs 1 _ (le_refl _)
+        (by simp only [List.length_cons] at hlen; omega) f0 (by rw [s0]; exact b0.1) (by rw [s0]; exact b0.2)
+      intro y hy
+      have hy' : y ∈ rv := by rw [hrv]; exact List.mem_cons_of_mem _ hy
+      exact ⟨hfin y (List.mem_cons_of_mem _ hy), hall y hy'⟩
+  obtain ⟨f, a, b⟩ := main
+  have nm := isNaN_of_finite f
+  exact ⟨f, (le_iff_sval _ _ (isNaN_of_finite hlo) nm).mpr a, (le_iff_sval _ _ nm (isNaN_of_finite hhi)).mpr b, a, b⟩
+
+/-- **min_le_mean_le_max_float** — the property's "min <= mean <= max" for what `computeStats`
+stores: if the retained values of a metric are finite, not empty, and `Max − Min` does not overflow,
+then `Min ≤ Mean ≤ Max` holds for the float64 fields (Go's `<=`). -/
+theorem min_le_mean_le_max_float (m : Metrics)
+    (hne : Spec.Legacy.retained m.values ≠ [])
+    (hfin : ∀ x ∈ Spec.Legacy.retained m.values, isFinite x = true)
+    (hspan : isFinite (sub (computeStats m).max (computeStats m).min) = true)
+    (hlen : m.values.length < 2 ^ 53) :
+    le (computeStats m).min (computeStats m).mean = true ∧
+    le (computeStats m).mean (computeStats m).max = true ∧ isFinite (computeStats m).mean = true := by
+  obtain ⟨hb, hmean⟩ := stats_of_retained m
+  have h1 : (computeStats m).min = (bounds (Spec.Legacy.retained m.values)).1 := congrArg Prod.fst hb
+  have h2 : (computeStats m).max = (bounds (Spec.Legacy.retained m.values)).2 := congrArg Prod.snd hb
+  rw [h1, h2] at hspan
+  have hl : (Spec.Legacy.retained m.values).length < 2 ^ 53 :=
+    lt_of_le_of_lt (List.length_filter_le _ _) hlen
+  obtain ⟨f, a, b, _, _⟩ := mean_between_min_max _ hne hfin hspan hl
+  rw [h1, h2, hmean]
+  exact ⟨a, b, f⟩
+
+/-- the no-overflow hypothesis cannot be dropped: for {−MaxFloat64, +MaxFloat64} both values are
+retained (the fence is (−Inf, +Inf)), `x − m` overflows in the second iteration and the float
+Mean is +Inf, above Max. -/
+theorem mean_overflow_counterexample :
+    let mx : Bits := 0x7FEFFFFFFFFFFFFF
+    let m := computeStats { values := [neg mx, mx] }
+    m.rvalues = [neg mx, mx] ∧ m.min = neg mx ∧ m.max = mx ∧ m.mean = posInf ∧
+    le m.mean m.max = false ∧ isFinite (sub m.max m.min) = false := by
+  decide +kernel
+
+/-- the same overflow corner in the quartile interpolation: for {−1e308, 1e308, 1.5e308} the
+difference `x[1] − x[0]` overflows, q1 = +Inf, the float fence is empty and nothing is retained
+(Min = Mean = Max = NaN) although every value lies inside the exact fence.  `retained_spec`
+still holds (it is stated for the float fence); the exact-arithmetic reading of the property
+needs the span of the values to be representable. -/
+theorem fence_overflow_counterexample :
+    let m := computeStats { values := [0xFFE1CCF385EBC8A0, 0x7FE1CCF385EBC8A0, 0x7FEAB36D48E1ACF0] }
+    m.rvalues = [] ∧ isNaN m.mean = true ∧ (Spec.Legacy.fence m.values).1 = posInf := by
+  decide +kernel
 
 /-- retained values are never NaN: NaN fails the fence test -/
 theorem retained_not_nan (vs : List Bits) : ∀ x ∈ Spec.Legacy.retained vs, isNaN x = false := by
